@@ -186,12 +186,12 @@ def ask_driver(requests, timeout=900):
 # --------------------------------------------------------------------------- findings
 
 def load_known(prop):
-    path = os.path.join(VERIF, 'KNOWN_FINDINGS.jsonl')
+    path = os.path.join(VERIF, 'KNOWN_FINDINGS.txt')
     res = []
     try:
         for line in open(path):
             line = line.strip()
-            if line and not line.startswith('#'):
+            if line and not line.startswith('#') and not line.startswith('fixed:'):
                 d = json.loads(line)
                 if d.get('property') == prop:
                     res.append(d)
